@@ -186,6 +186,13 @@ def run(ctx: Ctx):
                 ctx.violation("tie-broken", "z2s", dict(case, depth=z, z_r=[float(x) for x in zr]),
                               dict(implementation=[K, A], model=[mk, ma], correspondence="z2s_kernel vs Ladim.z2sCol"))
                 break
+    # ---- whole simulations over varying bathymetry without vertical motion: the level of a particle must follow the
+    # column it is in (the sampled scalar is the value of its own cell at that level, the velocity is sheared in depth)
+    from harness import scen
+    ne = 30 if ctx.thorough else 8
+    ecases = [scen.gen(ctx.seed * 100000 + 12500 + k, vertadv=False, scalars=True, kills=False, land=False, speed=[1.0, 2.0][k % 2], continuous=False,
+                       layout="sparse", rev=bool(k % 4 == 3), scheme=["EF", "RK2", "RK4"][k % 3], nsteps=8) for k in range(ne)]
+    scen.e2e_stream(ctx, "whole-run-levels", ecases, "Ladim.C12.z2s_spec applied at every step (Ladim.RomsSetup.force / oracle use levelOf at the current position)")
 
 
 def grid_levels(job):
